@@ -298,15 +298,21 @@ class CommHandler:
 
             # get info frame
             timeout = 5
-            while self._dev is None:
-                if timeout < 0:  # pragma: no cover
-                    msg = (
-                        "Failed to get device info, check"
-                        " your interface configuration"
-                    )
-                    raise TimeoutError(msg)
-                self._dev = self._devinfo_get()
-                timeout -= 1
+            try:
+                while self._dev is None:
+                    if timeout < 0:  # pragma: no cover
+                        msg = (
+                            "Failed to get device info, check"
+                            " your interface configuration"
+                        )
+                        raise TimeoutError(msg)
+                    self._dev = self._devinfo_get()
+                    timeout -= 1
+            except Exception:
+                # do not leave the recv thread and the interface running
+                self._thrd.thread_stop()
+                self._intf.stop()
+                raise
 
             # initialize channels state
             self._channels_init(self._dev)
